@@ -191,6 +191,7 @@ def build_cdata(spec, sites, fns, ktable, iline, vline, qline):
     steps = []                      # (position, thread)
     cur = {}
     sec = {}                        # thread -> [lock#, position] of the open queue-mutex section on the hot cache
+    last_pos = {}                   # thread -> position of its latest S / A / R event
     has_meta = bool(hs["tags"] or hs["events"] or hs["deps"])
     allkeys = set(ktable.values())
     init = iline[2:].split("|")[0]
@@ -204,6 +205,9 @@ def build_cdata(spec, sites, fns, ktable, iline, vline, qline):
             continue
         kind, t = e[0], int(e[1:e.index(":")])
         body = e[e.index(":") + 1:]
+        prev_pos = last_pos.get(t)
+        if kind in "SAR":
+            last_pos[t] = pos
         if kind == "S":
             op = body.split("_")
             cur[t] = {"op": op, "targets_hot": False, "rk_pos": None}
@@ -219,8 +223,11 @@ def build_cdata(spec, sites, fns, ktable, iline, vline, qline):
                 continue
             cur[t]["targets_hot"] = True
             if lname == "O":
-                if site == 6002 and cur[t]["rk_pos"] is not None:
-                    steps.append((cur[t]["rk_pos"] + 0.5, t))     # async conditional callback: collect, then purge
+                if site == 6002 and prev_pos is not None:
+                    # async conditional callback: collect (lock-free scan), then purge under the queue mutex.  The scan
+                    # runs BEFORE the yield point of the acquisition, i.e. in the slice that ended with this thread's
+                    # previous event (for invalidate_all_with that is the previous cache's callback, not the registry read)
+                    steps.append((prev_pos + 0.5, t))
                 if is_held:
                     sec[t] = [ln, pos]
                 else:
